@@ -11,6 +11,8 @@ import (
 
 type ssaFunction = ssa.Function
 
+var extraAPI []func(ex *Exec)
+
 var lssTok = token.LSS
 
 func (ex *Exec) makeWrapError(msg *StrV, inner IfaceV) Value {
@@ -218,6 +220,9 @@ func (ex *Exec) initHarnessAPI() {
 		ex.events = append(ex.events, ex.concStr(a[0], "vfEvent"))
 		return nil
 	}
+	for _, f := range extraAPI {
+		f(ex)
+	}
 	in["vf:vfTypeName"] = func(ex *Exec, fr *Frame, a []Value) Value {
 		iv := a[0].(IfaceV)
 		if iv.t == nil {
@@ -336,4 +341,215 @@ func (ex *Exec) violation(kind, id, msg string, m map[string]uint64) {
 	v := &Violation{Harness: ex.harness, ID: id, Kind: kind, Msg: msg, Model: m, Trace: tr, Where: where}
 	v.Replay = ex.buildReplay(m)
 	ex.stats.Violations = append(ex.stats.Violations, v)
+}
+
+// deepEqual builds a Bool term: structural equality of two values (like reflect.DeepEqual, with
+// pointer targets compared recursively and cycles cut by a visited set).
+func (ex *Exec) deepEqual(a, b Value, seen map[[2]*Obj]bool) *Term {
+	tf := ex.tf
+	switch x := a.(type) {
+	case *Term:
+		y, ok := b.(*Term)
+		if !ok || x.w != y.w {
+			return tf.Bool(false)
+		}
+		return tf.Eq(x, y)
+	case *StrV:
+		y, ok := b.(*StrV)
+		if !ok {
+			return tf.Bool(false)
+		}
+		t, ok2 := ex.strEq(x, y)
+		if !ok2 {
+			ex.unsupported(fmt.Sprintf("deep equality of strings undecidable: %s vs %s", x, y))
+		}
+		return t
+	case PtrV:
+		y, ok := b.(PtrV)
+		if !ok {
+			return tf.Bool(false)
+		}
+		if x.obj == nil || y.obj == nil {
+			return tf.Bool(x.obj == nil && y.obj == nil)
+		}
+		if ptrEq(x, y) {
+			return tf.Bool(true)
+		}
+		if len(x.path) == 0 && len(y.path) == 0 {
+			k := [2]*Obj{x.obj, y.obj}
+			if seen[k] {
+				return tf.Bool(true)
+			}
+			seen[k] = true
+		}
+		return ex.deepEqual(ex.loadRaw(x), ex.loadRaw(y), seen)
+	case *StructV:
+		y, ok := b.(*StructV)
+		if !ok || len(x.fields) != len(y.fields) {
+			return tf.Bool(false)
+		}
+		r := tf.Bool(true)
+		for i := range x.fields {
+			r = tf.And(r, ex.deepEqual(x.fields[i], y.fields[i], seen))
+			if r.IsFalse() {
+				return r
+			}
+		}
+		return r
+	case *ArrayV:
+		y, ok := b.(*ArrayV)
+		if !ok || len(x.elems) != len(y.elems) {
+			return tf.Bool(false)
+		}
+		r := tf.Bool(true)
+		for i := range x.elems {
+			r = tf.And(r, ex.deepEqual(x.elems[i], y.elems[i], seen))
+		}
+		return r
+	case SliceV:
+		y, ok := b.(SliceV)
+		if !ok {
+			return tf.Bool(false)
+		}
+		if (x.arr == nil) != (y.arr == nil) || x.len != y.len {
+			return tf.Bool(false)
+		}
+		r := tf.Bool(true)
+		for i := 0; i < x.len; i++ {
+			r = tf.And(r, ex.deepEqual(x.arr.v.(*ArrayV).elems[x.off+i], y.arr.v.(*ArrayV).elems[y.off+i], seen))
+			if r.IsFalse() {
+				return r
+			}
+		}
+		return r
+	case IfaceV:
+		y, ok := b.(IfaceV)
+		if !ok {
+			return tf.Bool(false)
+		}
+		if x.t == nil || y.t == nil {
+			return tf.Bool(x.t == nil && y.t == nil)
+		}
+		if !types.Identical(x.t, y.t) {
+			return tf.Bool(false)
+		}
+		return ex.deepEqual(x.v, y.v, seen)
+	case *MapV:
+		y, _ := b.(*MapV)
+		if x == nil || y == nil {
+			return tf.Bool(x == nil && y == nil)
+		}
+		if x == y {
+			return tf.Bool(true)
+		}
+		lx, ly := x.live(), y.live()
+		if len(lx) != len(ly) {
+			return tf.Bool(false)
+		}
+		r := tf.Bool(true)
+		for _, e := range lx {
+			var m *mapEntry
+			for _, e2 := range ly {
+				if ex.equal(e.key, e2.key).IsTrue() {
+					m = e2
+				}
+			}
+			if m == nil {
+				return tf.Bool(false)
+			}
+			r = tf.And(r, ex.deepEqual(e.val, m.val, seen))
+		}
+		return r
+	case *FuncV:
+		y, _ := b.(*FuncV)
+		return tf.Bool(x == nil && y == nil)
+	case nil:
+		return tf.Bool(b == nil)
+	}
+	ex.unsupported(fmt.Sprintf("deepEqual on %T", a))
+	return nil
+}
+
+// loadRaw reads without copying aggregates (read-only use).
+func (ex *Exec) loadRaw(p PtrV) Value {
+	v := p.obj.v
+	for _, i := range p.path {
+		switch x := v.(type) {
+		case *StructV:
+			v = x.fields[i]
+		case *ArrayV:
+			v = x.elems[i]
+		}
+	}
+	return v
+}
+
+// fieldByName: v is an interface holding a pointer to a struct (or a struct); returns field value as interface.
+func (ex *Exec) fieldByName(iv IfaceV, name string) (Value, types.Type, bool) {
+	if iv.t == nil {
+		return nil, nil, false
+	}
+	t := iv.t
+	v := iv.v
+	if pt, ok := t.Underlying().(*types.Pointer); ok {
+		p := v.(PtrV)
+		if p.obj == nil {
+			return nil, nil, false
+		}
+		v = ex.loadRaw(p)
+		t = pt.Elem()
+	}
+	st, ok := t.Underlying().(*types.Struct)
+	if !ok {
+		return nil, nil, false
+	}
+	for i := 0; i < st.NumFields(); i++ {
+		if st.Field(i).Name() == name {
+			return copyAgg(v.(*StructV).fields[i]), st.Field(i).Type(), true
+		}
+	}
+	return nil, nil, false
+}
+
+func init() {
+	extraAPI = append(extraAPI, func(ex *Exec) {
+		tf := ex.tf
+		ex.intr["vf:vfDeepEqual"] = func(ex *Exec, fr *Frame, a []Value) Value {
+			return ex.deepEqual(a[0], a[1], map[[2]*Obj]bool{})
+		}
+		// vfField(v, "Name") -> field value boxed in interface{}; nil interface if absent
+		ex.intr["vf:vfField"] = func(ex *Exec, fr *Frame, a []Value) Value {
+			v, t, ok := ex.fieldByName(a[0].(IfaceV), ex.concStr(a[1], "vfField name"))
+			if !ok {
+				return IfaceV{}
+			}
+			if _, isI := t.Underlying().(*types.Interface); isI {
+				return v
+			}
+			return IfaceV{t: t, v: v}
+		}
+		// vfFieldPos(v, "Name") -> (pos, ok) for token.Pos fields
+		ex.intr["vf:vfFieldPos"] = func(ex *Exec, fr *Frame, a []Value) Value {
+			v, t, ok := ex.fieldByName(a[0].(IfaceV), ex.concStr(a[1], "vfFieldPos name"))
+			if !ok || t.String() != "go/token.Pos" {
+				return TupleV{tf.Const(64, 0), tf.Bool(false)}
+			}
+			return TupleV{v, tf.Bool(true)}
+		}
+		ex.intr["vf:vfIsNil"] = func(ex *Exec, fr *Frame, a []Value) Value {
+			iv := a[0].(IfaceV)
+			if iv.t == nil {
+				return tf.Bool(true)
+			}
+			switch x := iv.v.(type) {
+			case PtrV:
+				return tf.Bool(x.obj == nil)
+			case SliceV:
+				return tf.Bool(x.arr == nil)
+			case *MapV:
+				return tf.Bool(x == nil)
+			}
+			return tf.Bool(false)
+		}
+	})
 }
